@@ -149,6 +149,9 @@ class C08Session(Session):
 
         d["obs_list"] = [one(n, it) for n, it in enumerate(op.get("observers", []))]
         d["src_list"] = [world[i] for i in op.get("sources", [])]
+        if op.get("tuple_containers"):  # the caller's containers are tuples instead of lists
+            d["obs_list"] = tuple(d["obs_list"])
+            d["src_list"] = tuple(d["src_list"])
         return d
 
     def _invoke(self, world, op, data):
@@ -184,7 +187,7 @@ class C08Session(Session):
             return getattr(sens, name)(*srcs, sumup=op.get("sumup", False), in_out=op.get("in_out", "auto"), **kw)
         if via == "coll":
             coll = world[op["coll"]]
-            inputs = srcs + obs
+            inputs = list(srcs) + list(obs)
             return getattr(coll, name)(*inputs, **kw)
         raise HarnessError("via " + via)
 
@@ -696,6 +699,8 @@ class Sim:
         if len(op.get("observers", [])) > 1 and op.get("pixel_agg") is None and via != "dict" \
                 and rng.random() < 0.7:
             op["pixel_agg"] = rng.choice(AGG_GOOD)
+        if rng.random() < 0.2:
+            op["tuple_containers"] = True
         if rng.random() < 0.5:
             op["order"] = rng.randrange(1, 1 << 20)  # the simulator decides the tiled-set iteration order
         op["enumerate"] = {"line_max": cfg.get("line_max", 0), "max": cfg["max_variants"], "hook_flavours": cfg["hook_flavours"],
